@@ -90,6 +90,18 @@ def run(ctx):
     ctx.ob('R27.1', ap.n, 'append and take branch on the same Tag::chunked predicate', len(ap.calls_to(TAG + 'chunked')) == 1 and len(tk.calls_to(TAG + 'chunked')) == 1, '', where(ap, ap.line))
     ch = ap.calls_to('re:slice::<impl \\[T\\]>::chunks$')
     ctx.ob('R27.1', ap.n, 'chunked fields are split with chunks(MAX_SCRIPT_ELEMENT_SIZE)', len(ch) == 1 and any(cd.endswith('MAX_SCRIPT_ELEMENT_SIZE') for cd in ap.slice_of([ch[0].args[1]], through_calls=False).constdefs), '', where(ap, ap.line))
+    # the split/concatenate decision depends on nothing but Tag::chunked(self): a second condition on one side only (e.g. on the value's
+    # length) makes the writer emit several pushes that the reader does not join (seeded C27-a)
+    from ..guards import all_guards, expand
+    def ctl(b, c):
+      return {(fmt_desc(g.atom), g.pol) for g in expand(b, all_guards(b, c.bb)) if not fmt_desc(g.atom).startswith('discr(') and 'is_empty' not in fmt_desc(g.atom)}
+    whole = [c for c in ap.calls if c.is_('re:Vec.*::as_slice$')]
+    fl = tk.calls_to('re:Iterator::flatten$')
+    tv = tk.calls_to('re:slice::<impl \\[T\\]>::to_vec$')
+    for b_, cs, pol, what in ((ap, ch, True, 'append: several pushes'), (ap, whole, False, 'append: one push of the whole value'), (tk, fl, True, 'take: all values concatenated'), (tk, tv, False, 'take: first value only')):
+      if ctx.anchor('R27.1', what, len(cs) == 1, b_.n):
+        g = ctl(b_, cs[0])
+        ctx.ob('R27.1', b_.n, f'{what} <=> Tag::chunked(self) == {pol}, and nothing else', g == {('Tag::chunked(self)', pol)}, f'controlled by {sorted(g)}', where(b_, cs[0].line))
   # ---------------- R27.2
   run_inventory(ctx, 'R27.2', ENTRIES, TABLE, partition=(16 if ctx.tier == 'thorough' else 1), floor_fns=30, floor_sites=18, label='envelope reader / writer')
   # ---------------- R27.3
@@ -151,6 +163,60 @@ def run(ctx):
     c = ftx.calls_to(ENV + 'from_tapscript')
     ctx.ob('R27.4', ftx.n, 'from_tapscript receives the enumerate index of the input', len(c) == 1 and '.v:Some.0.0' in fmt_desc(describe_operand(ftx, c[0].args[1])) and 'enumerate' in fmt_desc(describe_operand(ftx, c[0].args[1])), '', where(ftx, ftx.line))
 
+  _r27_5(ctx, F)
+
+
+ID_VALUE_ALLOWED = ('re:impl u32>::to_le_bytes$', 're:impl \\[T; N\\]>::as_slice$', 're:impl std::ops::Index for \\[T\\]>::index$', 're:slice::<impl \\[T\\]>::len$')
+
+
+def _r27_5(ctx, F):
+  """writer side of R27.3: from_value pads a short index with zeros at the END, so value() may drop only a suffix of zero bytes"""
+  from ..affine import Analysis, Aff, pkey
+  from ..facts import guards_of
+  ctx.rule('R27.5', 'InscriptionId::value emits the little-endian index bytes through nothing but a shrinking re-slice [0 .. len - 1] that is taken only while the last remaining byte equals 0 '
+           '(from_value pads at the end, so only trailing zeros may be dropped)')
+  b = ctx.body('R27.5', 'ord::inscriptions::inscription_id::InscriptionId::value')
+  if b is None:
+    return
+  ch = b.calls_to('std::iter::Iterator::chain')
+  if not ctx.anchor('R27.5', 'txid bytes chained with the index bytes', len(ch) == 1, b.n):
+    return
+  leg = [o for o in deep_origins(b, ch[0].args[1], all_args=True)]
+  calls = {o.call.name: o.call for o in leg if o.kind == 'call'}
+  other = sorted(n for n, c in calls.items() if not c.is_(*ID_VALUE_ALLOWED))
+  ctx.ob('R27.5', b.n, 'the index bytes reach the output only through as_slice and the trailing-zero re-slice', not other and any(c.is_(ID_VALUE_ALLOWED[0]) for c in calls.values()),
+         f'index bytes also pass through {other}: bytes other than trailing zeros can be dropped or changed', where(b, ch[0].line))
+  idx = [c for c in calls.values() if c.is_(ID_VALUE_ALLOWED[2])]
+  if not idx:
+    return
+  an = Analysis(b)
+  for c in idx:
+    rk = pkey(c.args[1].get('c') or c.args[1].get('m'))
+    lens = [x for x in b.calls if x.is_(ID_VALUE_ALLOWED[3])]
+    ok = False
+    msg = ''
+    for st in an.at_term(c.bb):
+      s0, e0 = st.val((rk[0], rk[1] + (('f', 0),))), st.val((rk[0], rk[1] + (('f', 1),)))
+      msg = f'[{s0} .. {e0}]'
+      for lc in lens:
+        same = {o.name for o in origins(b, lc.args[0], named_terminal=True)} == {o.name for o in origins(b, c.args[0], named_terminal=True)}
+        if same and s0 == Aff.const(0) and e0 == Aff.sym(('call', lc.bb)) - Aff.const(1):
+          ok = True
+    ctx.ob('R27.5', b.n, 're-slice is [0 .. len - 1] of the slice being shortened', ok, msg, where(b, c.line))
+    gs = []
+    for g in guards_of(b, c.bb):
+      sl = g.slice()
+      if sl.has_call('re:slice::<impl \\[T\\]>::last$') and sl.has_call('re:Option as std::cmp::PartialEq>::eq$'):
+        eqs = [x for x in b.calls if x.is_('re:Option as std::cmp::PartialEq>::eq$') and b.dominates(x.bb, g.bb)]
+        zero = False
+        for x in eqs:
+          for a in x.args:
+            for o in origins(b, a):
+              if o.kind == 'const' and isinstance(o.const, dict) and [pc.get('v') for pc in (o.const.get('pc') or [])] == [0]:
+                zero = True
+        gs.append((g.cond_true_live(), zero))
+    ctx.ob('R27.5', b.n, 're-slice happens only while last() == Some(0)', gs == [(True, True)], f'{gs}', where(b, c.line))
+
 
 def _ret_conj(cb):
   """descriptions of the terms of the boolean a closure returns (conjunction expanded)"""
@@ -163,7 +229,9 @@ def _ret_conj(cb):
 
 
 # sensitivity pack (thorough tier): each seeded edit must be reported by the named rule instance
-MUTANTS = [{'name': 'content-type-encoding-swapped', 'file': 'src/inscriptions/inscription.rs', 'old': 'Tag::ContentType.append(&mut builder, &self.content_type);\n    Tag::ContentEncoding.append(&mut builder, &self.content_encoding);', 'new': 'Tag::ContentType.append(&mut builder, &self.content_encoding);\n    Tag::ContentEncoding.append(&mut builder, &self.content_type);', 'expect': ('R27.1', 'append_reveal_script_to_builder', 'Tag::ContentType')},
+MUTANTS = [{'name': 'seeded-C27-a', 'patch': 'C27-a/patch.diff', 'expect': ('R27.1', 'Tag::append', 'Tag::chunked(self)')},
+           {'name': 'seeded-C27-b', 'patch': 'C27-b/patch.diff', 'expect': ('R27.5', 'InscriptionId::value', '')},
+           {'name': 'content-type-encoding-swapped', 'file': 'src/inscriptions/inscription.rs', 'old': 'Tag::ContentType.append(&mut builder, &self.content_type);\n    Tag::ContentEncoding.append(&mut builder, &self.content_encoding);', 'new': 'Tag::ContentType.append(&mut builder, &self.content_encoding);\n    Tag::ContentEncoding.append(&mut builder, &self.content_type);', 'expect': ('R27.1', 'append_reveal_script_to_builder', 'Tag::ContentType')},
            {'name': 'from-value-length-guard-dropped', 'file': 'src/inscriptions/inscription_id.rs', 'old': '    if value.len() < Txid::LEN {\n      return None;\n    }\n', 'new': '', 'expect': ('R27.2', 'from_value', 'split_at')}]
 
 
